@@ -61,7 +61,15 @@ def _initialize_window_functions():
 
         if not ("M" in sig.parameters and "sym" in sig.parameters):
             continue
-        elif len(sig.parameters) > 2:
+        elif [
+            p.name
+            for p in sig.parameters.values()
+            if p.kind is not p.KEYWORD_ONLY
+        ] != ["M", "sym"]:
+            # Only window functions that require nothing but the number of
+            # points are supported. Newer versions of SciPy have added
+            # keyword-only parameters (e.g., 'xp' and 'device') to all of the
+            # window functions.
             continue
 
         _WINDOW_FUNCTIONS[name] = func
